@@ -1,5 +1,29 @@
 let opt = function Some v -> string_of_z v | None -> "NONE"
+let atype_of = function "AInt" -> AInt | "AUInt" -> AUInt | "AFloat" -> AFloat | s -> failwith ("atype " ^ s)
+let opnd_of = function "AComplex" -> OComplex | "AObj" -> OObj | "APosFloat" -> OPosFloat | "APosIntConst" -> OPosIntConst | s -> OC (atype_of s)
+let bkind_of = function
+  | "BNegIntConst" -> BNegIntConst | "BNonNegIntConst" -> BNonNegIntConst | "BRuntimeSignedInt" -> BRuntimeSignedInt
+  | "BRuntimeUnsignedInt" -> BRuntimeUnsignedInt | "BIntegralFloatConst" -> BIntegralFloatConst
+  | "BFloatConst" -> BFloatConst | "BRuntimeFloat" -> BRuntimeFloat | s -> failwith ("bkind " ^ s)
+let ekind_of = function "BComplexConst" -> EComplexConst | "BRuntimeComplex" -> ERuntimeComplex | "BObj" -> EObj | s -> EC (bkind_of s)
+let cpow_of = function "CUnset" -> CUnset | "CTrue" -> CTrue | "CFalse" -> CFalse | s -> failwith ("cpow " ^ s)
+let dest_of = function
+  | "DNone" -> DNone | "DCInt" -> DCInt | "DCFloat" -> DCFloat | "DCComplex" -> DCComplex | "DPyObj" -> DPyObj
+  | "DCastInt" -> DCastInt | "DCastFloat" -> DCastFloat | "DArithInt" -> DArithInt | "DArithFloat" -> DArithFloat
+  | s -> failwith ("dest " ^ s)
+let rtype_of = function
+  | "RInt" -> RInt | "RFloat" -> RFloat | "RSoftComplex" -> RSoftComplex | "RComplex" -> RComplex | "RObj" -> RObj | _ -> ROther
+let str_rtype = function
+  | RInt -> "RInt" | RFloat -> "RFloat" | RSoftComplex -> "RSoftComplex" | ROther -> "ROther" | RComplex -> "RComplex" | RObj -> "RObj"
+let str_delivery = function
+  | VInt -> "VInt" | VFloat -> "VFloat" | VPyReal -> "VPyReal" | VPyComplex -> "VPyComplex" | VTypeError -> "VTypeError"
+  | VNoValue -> "VNoValue"
+let b01 b = if b then "1" else "0"
+let str_outcome o = str_rtype o.o_type ^ " " ^ b01 o.o_rejected ^ " " ^ b01 o.o_warned
 let handle = function
+  | ["coerced"; c; a; b; d] -> (try str_outcome (pow_coerced (cpow_of c) (opnd_of a) (ekind_of b) (dest_of d)) with Failure m -> "!ERR " ^ m)
+  | ["doc_coerced"; c; a; b; d] -> (try str_outcome (doc_coerced (cpow_of c) (opnd_of a) (ekind_of b) (dest_of d)) with Failure m -> "!ERR " ^ m)
+  | ["deliver"; r; d; real] -> (try str_delivery (deliver (rtype_of r) (dest_of d) (bool_of_string real)) with Failure m -> "!ERR " ^ m)
   | ["int_pow"; w; s; b; e] -> opt (int_pow (z_of_string w) (bool_of_string s) (z_of_string b) (z_of_string e))
   | ["int_pow_ck"; f; w; s; b; e] ->
       (match int_pow_ck (bool_of_string f) (z_of_string w) (bool_of_string s) (z_of_string b) (z_of_string e) with
